@@ -386,3 +386,16 @@ contract(TT + ".new", serves=["C13", "C05"], spec_module="spec.tiers",
                   ("independent", "result is not self and result._entries is not self._entries"),
                   # a requested span that is narrower than the entries is widened, never kept
                   ("well-formed", "well_formed(result)")])
+
+
+# ---- intersection / mergeLabels: the accumulated entry list is summarised as an arbitrary list (R-HAVOC); what is
+# proved is what holds whatever the loop collected: the result went through the validating constructor, so it is a
+# well-formed tier or the call raises TextgridStateError and nothing else; the operands are not mutated.  The
+# labelled-time content is decided by c10_setops.
+
+for fn in ("intersection", "mergeLabels"):
+    contract(IT + "." + fn, serves=["C05", "C10", "C13"], spec_module="spec.tiers",
+             inputs=lambda S, cfg: dict(self=wf_interval_tier(S, "self"), tier=wf_interval_tier(S, "tier")),
+             loops={"loop#1": {"havoc": {"retEntryList": "tuple3"}}},
+             frame=["self", "tier"], may_raise=["TextgridStateError"],
+             ensures=[("well-formed", "well_formed(result)")])
